@@ -518,6 +518,10 @@ def explore(ctx, cases, label=""):
         ctx.case(json.dumps(case, sort_keys=True), sorted(j["tags"]))
         bad = j["bad"]
         if bad is not None:
+            seen = ctx.extra.setdefault("_shrunk", {})
+            seen[bad[0]] = seen.get(bad[0], 0) + 1
+            if seen[bad[0]] > 3:      # same comparison failing again: enough shrunk witnesses
+                continue
             small = normalise(shrink_case(case, bad[0]))
             b2 = judge(small)["bad"] or bad
             if b2 is bad:
@@ -593,8 +597,15 @@ def corpus_cases():
 
 def run(ctx):
     rng = ctx.rng
+    try:
+        _run(ctx, rng)
+    finally:
+        ctx.extra.pop("_shrunk", None)
+
+
+def _run(ctx, rng):
     explore(ctx, corpus_cases(), label="corpus: ")
-    n = 100000 if ctx.thorough() else 15000
+    n = 100000 if ctx.thorough() else 12000
     batch = 2500
     done = 0
     while done < n:
@@ -608,3 +619,4 @@ def run(ctx):
 
 def replay(ctx, data):
     explore(ctx, [normalise(data["case"])], label="replay: ")
+    ctx.extra.pop("_shrunk", None)
